@@ -98,7 +98,8 @@ def rand_value(rng, start_flag=False):
             v = rng.choice(["1", "a", "0", "x", "YES"])          # short strings CPython interns
         elif r < 0.4:
             v = rng.choice(["0.000=120.000", "60:240", "*", "a:b:c", "TIME=1.5:LEN=2:MODS=drunk", ":240", "a::b",
-                            "two\nlines", "cr\rlf", "x\r\n y", "0.000=120.000,\n4.000=90.000"])       # several lines, nothing that needs escaping
+                            "two\nlines", "cr\rlf", "x\r\n y", "0.000=120.000,\n4.000=90.000",
+                            "zero\ufeffwidth", "\ufeff", "a\n \nb", "tab\t\nend", "form\x0cfeed", "line\u2028sep", "nbsp\xa0"])       # several lines, odd code points, nothing that needs escaping
         else:
             v = rand_text(rng)
         if "\r" in v:
@@ -323,7 +324,7 @@ def rand_msd_text(rng, ssc=None):
             parts.append(rand_param_text(rng, keys))
         parts.append(rng.choice(["\n", "\n", "\r\n", "", " ", "\n\n"]))
     if rng.random() < 0.3:
-        comps = ["dance-single", "", "Easy", "3", "0,0", "0000\n0000\n"][: rng.choice([6, 6, 6, 5, 6, 2])]
+        comps = [rng.choice(["dance-single", "dance-single", "NOTES", "notes", " Notes "]), "", "Easy", "3", "0,0", "0000\n0000\n"][: rng.choice([6, 6, 6, 5, 6, 2])]
         if len(comps) == 6:             # extra components after the note data, blank ones and several of them included
             comps += rng.choice([[], [], [], [""], ["", ""], ["x"], ["", " ", ""], ["keysounds", " ", ""], ["\n", "\n"]])
         parts.append("#NOTES:" + ":".join(comps) + rng.choice([";", ""]))
